@@ -30,7 +30,9 @@ META = {
     "rule": "case = value recipe (ints incl. huge, bools, None, str/bytes with arbitrary code points, complex, all floats incl. -0.0/"
             "inf/NaN/subnormal, enum members of top-level/nested/private/foreign/flag enums, list/tuple/set/dict nested to depth 5, "
             "non-assertable objects: SUT instances, local/nested classes, sized objects, Decimal/Fraction, frozenset, bytearray, "
-            "iterators) x binding (direct | field of a SUT object | field of a nested object); non-trivial = at least one assertion "
+            "iterators) x binding (direct | field of a SUT object | field of a nested object); plus two-statement histories (observe, grow an inner/outer container "
+            "of the same live object in place, observe again; each position judged against a fresh reconstruction of the state at "
+            "that position); non-trivial = at least one assertion "
             "was produced and executed; distinct by (recipe, binding)",
     "assumptions": ["the exported namespace is: pytest, sys, <alias> = the SUT module, every public name of dir(SUT module) "
                     "(TestSuiteWriter.write_test_suite / _per_statement_exceptions)",
